@@ -43,6 +43,15 @@ mod imp {
                     let t = gen_typed(src, d);
                     spell_tree(&t, src, st).map(|x| x.0)
                 }
+                3 if src.flip() => {
+                    // deeply nested evaluation (every thread deep in the interpreter at the same time)
+                    let d = 40 + src.below(80);
+                    Some(match src.below(3) {
+                        0 => format!("{}n{}", "abs(".repeat(d), ")".repeat(d)),
+                        1 => format!("{}s{}", "not_null(z, ".repeat(d), ")".repeat(d)),
+                        _ => format!("nums{}", " | @".repeat(d)),
+                    })
+                }
                 3 => gen_sentence(src, st, 3),
                 4 => Some(src.pick(&["nope(@)", "abs('x')", "nums[::0]", "sort_by(objs, &to_array(n))", "map(&abs(s), objs)"]).to_string()),
                 _ => Some(src.pick(&["sort_by(objs, &k)", "max_by(objs, &n)", "map(&length(s), objs)", "objs[?n > `0`].s", "nums[::-1]", "merge(o, o2)", "sort(nums)", "sort(strs)"]).to_string()),
@@ -64,7 +73,7 @@ mod imp {
                 .collect()
         };
         let before = seq(&compiled);
-        let n_threads = 2 + src.below(15);
+        let n_threads = if src.chance(40) { 17 + src.below(16) } else { 2 + src.below(15) };
         // job lists: (expr index, doc index, yield?, compile inside thread?)
         let mut jobs: Vec<Vec<(usize, usize, bool, bool)>> = vec![];
         for _ in 0..n_threads {
@@ -152,6 +161,71 @@ mod imp {
         st.class_n("searches", iv.len() as u64);
         if overlap && st.nontrivial(&case.to_string()) {
             st.sample(|| json!({"threads": n_threads, "expressions": exprs.len(), "documents": docs.len(), "searches": iv.len()}));
+        }
+        Ok(())
+    }
+
+    /// Contention: many threads (up to 32) repeat the SAME deep or long-running search on
+    /// shared data for a while, so that at every instant most threads are deep inside the
+    /// interpreter; every single result must equal the sequential one.
+    pub fn contention(src: &mut Src, st: &mut Stats, _env: &Env) -> CaseResult {
+        let d = 30 + src.below(90);
+        let expr = match src.below(5) {
+            0 => format!("{}n{}", "abs(".repeat(d), ")".repeat(d)),
+            1 => format!("{}s{}", "not_null(z, ".repeat(d), ")".repeat(d)),
+            2 => format!("nums{}", " | @".repeat(d)),
+            3 => format!("{}nums{}", "[".repeat(d.min(60)), "]".repeat(d.min(60))),
+            _ => "sort_by(objs, &n)[*].{k: keys(@), l: length(s), t: type(n)}".to_string(),
+        };
+        let doc_text = schema_doc(src).to_json();
+        let doc: jmespath::Rcvar = Arc::new(jmespath::Variable::from_json(&doc_text).unwrap());
+        let compiled = match jmespath::compile(&expr) {
+            Ok(c) => c,
+            Err(e) => return Err(Failure::new("contention", "harness-compile", e.to_string(), json!({"expression": expr}))),
+        };
+        let want = outcome(compiled.search(&doc));
+        let n_threads = 8 + src.below(25);
+        let iters = 100 + src.below(300);
+        st.eval();
+        let barrier = Barrier::new(n_threads);
+        let bad: Mutex<Vec<String>> = Mutex::new(vec![]);
+        let panicked = std::thread::scope(|sc| {
+            let hs: Vec<_> = (0..n_threads)
+                .map(|_| {
+                    let (barrier, compiled, doc, want, bad) = (&barrier, &compiled, &doc, &want, &bad);
+                    sc.spawn(move || {
+                        barrier.wait();
+                        for _ in 0..iters {
+                            let got = outcome(compiled.search(doc));
+                            if &got != want {
+                                bad.lock().unwrap().push(got);
+                                break;
+                            }
+                        }
+                    })
+                })
+                .collect();
+            hs.into_iter().map(|h| h.join().is_err()).any(|x| x)
+        });
+        let case = json!({"expression": expr, "document": doc_text, "threads": n_threads, "iterations": iters});
+        if panicked {
+            return Err(Failure::new("contention", "panic-in-thread", "a worker thread panicked".into(), case));
+        }
+        let bad = bad.into_inner().unwrap();
+        if let Some(b) = bad.first() {
+            return Err(Failure::new(
+                "contention",
+                "concurrent-result-differs-from-sequential",
+                format!("{} of {} threads saw a different result; first: {} (sequential: {})", bad.len(), n_threads, clip(b, 200), clip(&want, 200)),
+                case,
+            ));
+        }
+        if outcome(compiled.search(&doc)) != want {
+            return Err(Failure::new("contention", "sequential-result-changed-after-concurrent-run", "result after the run differs".into(), case));
+        }
+        st.class_n("contention:searches", (n_threads * iters) as u64);
+        if st.nontrivial(&case.to_string()) {
+            st.sample(|| json!({"threads": n_threads, "iterations": iters, "expression_prefix": expr.chars().take(40).collect::<String>()}));
         }
         Ok(())
     }
@@ -321,6 +395,7 @@ pub fn property() -> Property {
     let subs = vec![
         Sub::Custom(CustomSub { name: "typelevel", run: typelevel, replay: replay_typelevel }),
         Sub::Bytes(BytesSub { name: "workload", f: imp::workload, max_len: 3000, quick: Budget { threads: 2, cases: 400 }, thorough: Budget { threads: 2, cases: 15_000 }, keep_unreproducible: true }),
+        Sub::Bytes(BytesSub { name: "contention", f: imp::contention, max_len: 2500, quick: Budget { threads: 1, cases: 60 }, thorough: Budget { threads: 1, cases: 2000 }, keep_unreproducible: true }),
         Sub::Custom(CustomSub { name: "first-use", run: imp::first_use, replay: imp::replay_first_use }),
         Sub::Custom(CustomSub { name: "tsan", run: imp::tsan, replay: imp::replay_tsan }),
     ];
